@@ -46,6 +46,12 @@ for x in l repeat s := s + x * x;
 print << "sumsq " << s << newline;
 '''
 
+SRC_SMALL = '''#include "axllib"
+import from SingleInteger;
+f(n: SingleInteger): SingleInteger == if n < 2 then 1 else n * f(n - 1);
+print << "fact " << f(7) << " " << f(3) + 12345 << newline;
+'''
+
 SRC_LIB1 = '''#include "axllib"
 
 Pt: with {
@@ -260,14 +266,16 @@ def build_targets(build, formats=("ao", "al", "fm")):
     rd = lambda name: open(os.path.join(d, name), "rb").read()
     w("prog.as", SRC_PROG)
     w("lib1.as", SRC_LIB1)
+    w("small.as", SRC_SMALL)
     w(LONGNAME + ".as", SRC_LIB2)
     _compile(build, d, ["-Fao", "-Ffm", "prog.as"])
     _compile(build, d, ["-Fao", "lib1.as"])
+    _compile(build, d, ["-Ffm", "small.as"])
     _compile(build, d, ["-Fao", LONGNAME + ".as"])
     r = subprocess.run(["ar", "crD", "libmy.al", "lib1.ao", LONGNAME + ".ao"], cwd=d, stdout=subprocess.PIPE, stderr=subprocess.STDOUT)
     if r.returncode != 0:
         raise vlib.MachineryError("ar failed: " + r.stdout.decode())
-    prog_ao, prog_fm, lib1_ao, libmy = rd("prog.ao"), rd("prog.fm"), rd("lib1.ao"), rd("libmy.al")
+    prog_ao, small_fm, lib1_ao, libmy = rd("prog.ao"), rd("small.fm"), rd("lib1.ao"), rd("libmy.al")
     ts = []
     if "ao" in formats:
         ca = classes_ao(prog_ao)
@@ -279,16 +287,19 @@ def build_targets(build, formats=("ao", "al", "fm")):
         ts.append(Target("al", "client", "libmy.al", libmy, {"client2.as": SRC_CLIENT2.encode()},
                          ["-laxllib", "-Fc=client2.c", "-Ginterp", "client2.as"], classes_al(libmy)))
     if "fm" in formats:
-        cf = classes_fm(prog_fm)
-        ts.append(Target("fm", "fc", "prog.fm", prog_fm, {}, ["-Fc=o.c", "prog.fm"], cf))
-        ts.append(Target("fm", "interp", "prog.fm", prog_fm, {}, ["-laxllib", "-Ginterp", "prog.fm"], cf))
+        cf = classes_fm(small_fm)
+        ts.append(Target("fm", "fc", "small.fm", small_fm, {}, ["-Fc=o.c", "small.fm"], cf))
+        ts.append(Target("fm", "interp", "small.fm", small_fm, {}, ["-laxllib", "-Ginterp", "small.fm"], cf))
     return ts
 
 
 # --------------------------------------------------------------------------
 # one consuming compilation
 
-FAULT_RE = re.compile(rb"Program fault|[Cc]ompiler bug|Bug:|Assertion|Unhandled Exception|core dumped|stack smashing|double free|corrupted")
+# what the compiler (or libc) prints when it faults internally; NOT its ordinary diagnostics
+# (note: "Archive ... is truncated or corrupted" is an ordinary diagnostic)
+FAULT_RE = re.compile(rb"Program fault|[Cc]ompiler bug|Bug:|Assertion.*failed|Unhandled Exception|core dumped|stack smashing|"
+                      rb"double free|malloc\(\): |free\(\): |realloc\(\): |munmap_chunk\(\)|corrupted (size|double-linked|top)")
 DIAG_RE = re.compile(rb"\((Fatal )?Error\)|[Ee]rror|[Cc]ould not|[Cc]annot|[Cc]an't")
 
 
@@ -363,7 +374,7 @@ def subst_values(fmt, b, thorough):
     """Substituted byte values: a fixed function of the original byte (never of the seed), so that
     whatever the quick tier tries is a subset of what the thorough tier tries."""
     if fmt == "fm":
-        vs = [b ^ 1, 0x28, 0x29, 0x22, 0x20, 0x00, b ^ 0x80] if thorough else [b ^ 1, 0x29, 0x22, 0x00]
+        vs = [b ^ 1, 0x29, 0x22, 0x00, 0x28, 0x20] if thorough else [b ^ 1, 0x29, 0x22, 0x00]
     else:
         vs = [b ^ 1, 0x00, 0xFF, b ^ 0x80, (b + 1) & 0xFF] if thorough else [b ^ 1, 0x00, 0xFF]
     out = []
@@ -388,6 +399,17 @@ def offsets_for(t, tier, rng, sample):
     if tier == "thorough":
         return list(range(n))
     keep = set()
+    if t.fmt == "fm":
+        # text: token boundaries are everywhere; take head, tail and a seeded sample per class
+        keep.update(range(min(80, n)))
+        keep.update(range(max(0, n - 40), n))
+        by = {}
+        for i in range(n):
+            by.setdefault(t.classes[i][0], []).append(i)
+        for c in sorted(by):
+            rng.shuffle(by[c])
+            keep.update(by[c][:max(4, sample // 5)])
+        return sorted(keep)
     for i in range(n):
         c = t.classes[i]
         if is_header_class(c[0]):
